@@ -473,10 +473,12 @@ package redis
 //@ func (*compressFilter).Do
 //@   prop C11 C13
 //@   requires f != nil && req != nil && req.body != nil
+//@   requires @values-disjoint forall j int, k int :: 0 <= j && j < k && k < len(req.body.Array) ==> disjoint(req.body.Array[j].Text, req.body.Array[k].Text)
 
 //@ func (*compressFilter).Decompress
 //@   prop C11 C13
 //@   requires f != nil && resp != nil
+//@   loop 0 assume resp.Array == old(resp.Array)
 
 //@ func (*compressFilter).decompress
 //@   prop C11 C13
